@@ -4,7 +4,7 @@ from __future__ import annotations
 import json
 
 ID = "C13"
-FUNCTIONS = [("sleap_nn.data.providers", "VideoReader.__init__"), ("sleap_nn.data.providers", "VideoReader.total_len"), ("sleap_nn.data.providers", "VideoReader.run"), ("sleap_nn.data.providers", "LabelsReader.run"), ("sleap_nn.inference.predictors", "Predictor._predict_generator"),
+FUNCTIONS = [("sleap_nn.data.providers", "VideoReader.__init__"), ("sleap_nn.data.providers", "VideoReader.total_len"), ("sleap_nn.data.providers", "VideoReader.run"), ("sleap_nn.data.providers", "LabelsReader.run"), ("sleap_nn.data.providers", "LabelsReader.total_len"), ("sleap_nn.inference.predictors", "Predictor._predict_generator"),
              ("sleap_nn.data.normalization", "apply_normalization"), ("sleap_nn.data.resizing", "apply_sizematcher")]
 EXPLANATION = ("The reader thread body (VideoReader.run / LabelsReader.run) and the consumer loop (Predictor._predict_generator) are regenerated as coroutines from "
                "their current source on every run; a deterministic scheduler interleaves them at every queue put/get, start/join and yield over a bounded-FIFO "
